@@ -270,6 +270,7 @@ func c11PoCorrespondence(e *env) {
 	}
 
 	c11PoEntryCorrespondence(e)
+	c11PoHeaderCorrespondence(e)
 }
 
 // ---- 5. whole entries and whole files (Model/PoEntry.v): the comment lines, the blank lines between
